@@ -101,6 +101,70 @@ Definition log_obs (args : list str) : str :=
   show_bool (contains (event_bytes e) dbg) ++ show_bool (contains (ev_cmd e) dbg) ++ comma ++
   hex (concat (List.map (fun l => l ++ [10]) (out_log drv_strip_raw drv_pretty_rest e))).   (* Fprintln *)
 
+(* ---- sasl.fault: the write of one line fails with the I/O error text args[9] ---- *)
+Definition t_Eminus := Eval vm_compute in bs "E-;C-".
+Definition t_Eeq := Eval vm_compute in bs "E=".
+Definition t_Ceq := Eval vm_compute in bs ";C=".
+Definition p_PASS := Eval vm_compute in bs "PASS ".
+Definition p_WEBIRC := Eval vm_compute in bs "WEBIRC ".
+Definition p_OPER := Eval vm_compute in bs "OPER ".
+Definition p_AUTH := Eval vm_compute in bs "AUTHENTICATE ".
+Definition fault_event (args : list str) : event :=
+  let pfx := a9 7 args in
+  if streqb pfx p_PASS then pass_event (a9 3 args)
+  else if streqb pfx p_WEBIRC then webirc_event (mkWebirc (a9 4 args) t_gw t_host t_addr)
+  else if streqb pfx p_OPER then oper_event (a9 5 args) (a9 6 args)
+  else if streqb pfx p_AUTH then secret_ev c_AUTHENTICATE [a9 2 args]
+  else plain_ev pfx [].
+Definition fault_obs (args : list str) : str :=
+  match a9 7 args with
+  | [] => t_Eminus
+  | _ =>
+    match write_fault_result (a9 9 args) (fault_event args) with
+    | Some x => t_Eeq ++ show_bool (contains (a9 9 args) x) ++ t_Ceq ++ show_bool (contains (a9 9 args) (cleanup_log x))
+    | None => t_Eminus
+    end
+  end.
+
+(* ---- sasl.plainseq: Encode calls on one SASLPlain value whose fields change ---- *)
+Fixpoint plainseq (l : list str) : list str :=
+  match l with
+  | u :: p :: f :: r => sasl_plain_encode u p [f] :: plainseq r
+  | _ => []
+  end.
+
+(* ---- sasl.reconnect: two scripted connections, credential changed in between ---- *)
+Definition t_text := Eval vm_compute in bs "text".
+Definition t_errevent := Eval vm_compute in bs "errevent".
+Definition t_nil := Eval vm_compute in bs "nil".
+Definition rc_history (final : str) : list event :=
+  [mkEv t_srv c_CAP [c_star; c_LS; c_sasl] false false;
+   mkEv t_srv c_CAP [c_star; c_ACK; c_sasl] false false;
+   mkEv [] c_AUTHENTICATE [c_plus] false false;
+   mkEv t_srv final [t_me; t_text] false false].
+Definition rc_payload (e : event) : list str :=
+  if streqb (ev_cmd e) c_AUTHENTICATE then
+    match ev_params e with
+    | [p] => if streqb p m_PLAIN then [] else [p]
+    | _ => []
+    end
+  else [].
+Definition rc_conn (u p final : str) : str :=
+  let c := mkCfg (Some (plain_mech u p)) [] (mkWebirc [] [] [] []) true t_me t_user t_realname sort_strs in
+  match run c conn_init (rc_history final) with
+  | Ok (cn, outs) =>
+    hexlist (flat_map rc_payload (writes_of outs)) ++ semi ++
+    (match cn_returned cn with Some _ => t_errevent | None => t_nil end)
+  | Panic => t_PANIC
+  end.
+Definition t_Aeq := Eval vm_compute in bs "A=".
+Definition t_Beq := Eval vm_compute in bs ";B=".
+Definition reconnect_obs (args : list str) : str :=
+  t_Aeq ++ rc_conn (a9 0 args) (a9 1 args) n904 ++ t_Beq ++ rc_conn (a9 2 args) (a9 3 args) n903.
+
+Definition s_sasl_fault := Eval vm_compute in bs "sasl.fault".
+Definition s_sasl_plainseq := Eval vm_compute in bs "sasl.plainseq".
+Definition s_sasl_reconnect := Eval vm_compute in bs "sasl.reconnect".
 Definition s_sasl_b64enc := Eval vm_compute in bs "sasl.b64enc".
 Definition s_sasl_b64dec := Eval vm_compute in bs "sasl.b64dec".
 Definition s_sasl_plain := Eval vm_compute in bs "sasl.plain".
@@ -117,4 +181,7 @@ Definition run_C09 (suite : str) (args : list str) : option str :=
     Some (hex (sasl_external_encode (a9 0 args) (skipn 1 args)))
   else if streqb suite s_sasl_session then Some (session_obs args)
   else if streqb suite s_sasl_log then Some (log_obs args)
+  else if streqb suite s_sasl_fault then Some (fault_obs args)
+  else if streqb suite s_sasl_plainseq then Some (hexlist (plainseq args))
+  else if streqb suite s_sasl_reconnect then Some (reconnect_obs args)
   else None.
